@@ -9,7 +9,7 @@ bad=0
 for d in seeded/${1}*/; do
   id=$(basename "$d")
   checks=$(/venv/bin/python -c "import json,sys; print(' '.join(json.load(open('$d/meta.json')).get('caught_by', [])))")
-  git -C /repo apply "$d/patch.diff" 2>/dev/null || { echo "$id: PATCH DOES NOT APPLY"; bad=1; continue; }
+  git -C /repo apply "/verif/$d/patch.diff" 2>/dev/null || { echo "$id: PATCH DOES NOT APPLY"; bad=1; continue; }
   for c in $checks; do
     ./check $c --tier quick > out/reseed/${id}_$c.log 2>&1; rc=$?
     if [ $rc -eq 1 ]; then echo "$id: $c catches it ($(grep -c '^VIOLATION' out/reseed/${id}_$c.log) keys)"; else echo "$id: $c MISSES it (rc=$rc)"; bad=1; fi
